@@ -310,6 +310,8 @@ func (x *Exec) fsAPI(name string, args []Value) (Value, bool) {
 	switch name {
 	case "vFSEnable":
 		x.fs = newFS()
+		x.wellKnownErr("os", "ErrNotExist")
+		x.wellKnownErr("io", "EOF")
 		x.stubsHit["file-system model (os.Create/Open/CreateTemp/Rename/WriteFile, (*os.File).Write/Close/Name/Read, io.ReadAll)"] = true
 		return nil, true
 	case "vFSWriteFile":
